@@ -272,6 +272,19 @@ def run(P, R, tier):
             if norm(fx) in ('self._element_type', 'self.dtype.type', 'type(self)._element_type'):
                 nel += 1
                 dt = c_.args[1] if len(c_.args) > 1 else astq.arg_of(c_, kw='dtype')
+                # ... and from the element's PYTHON value (`.as_py()` / `to_pylist()`): a scalar wrapped around an Arrow scalar of a sliced parent keeps the
+                # parent's offsets, which the flat-buffer accessors of Line / Ring scalars do not apply
+                if c_.args:
+                    srcs = astq.sources(f_, c_.args[0])
+                    txt = ' '.join(norm(d[1].iter if isinstance(d[1], (ast.For, ast.comprehension)) else d[1]) for nm_ in srcs for d in astq.assignments(f_, nm_)
+                                   if isinstance(d[1], ast.AST)) + ' ' + norm(c_.args[0])
+                    pyval = any(k in txt for k in ('.as_py()', 'to_pylist()', '.tolist()'))
+                    arrow_iter = any(isinstance(d[1], (ast.For, ast.comprehension)) and norm(d[1].iter) in ('self.data', 'self.listarray') for nm_ in srcs for d in astq.assignments(f_, nm_))
+                    if arrow_iter and not pyval:
+                        R.bad('C16.g', f_, c_, f'`{norm(c_)}` wraps the Arrow scalars of `self.data` directly: for an element that is not the first of its buffer the scalar keeps the parent\'s offsets, '
+                              'so iterating gives other lengths than indexing (Line / Ring)', construct=f'{f_.qualname}: scalar from python value')
+                    else:
+                        R.ok('C16.g', f_, c_, 'a scalar is built from the element\'s python value', construct=f'{f_.qualname}: scalar from python value')
                 R.check(dt is not None and ('numpy_dtype' in norm(astq.expand(f_, dt)) or 'subtype' in norm(astq.expand(f_, dt))), 'C16.g', f_, c_,
                         'a scalar is built from (value, the array\'s numpy dtype)',
                         f'`{norm(c_)}` builds a scalar without the array\'s element dtype: a Point of an int64 / float32 array is reinterpreted as float64, so iterating gives other '
